@@ -271,10 +271,10 @@ var qstars = map[[2]int]uint64{}
 func TestC13(t *testing.T) {
 	hx.Main(t, hx.Prop{
 		ID: "C13",
-		Rule: "each run draws concurrency 1-3, silence period {0,10ms,1s,5s}, 0-3 prioritized clients x 1-3 begin/end pairs, 1-3 concurrent InvokeBackgroundTask whose bodies take drawn simulated time and react to cancellation after a drawn delay (incl. later than silence+prioritized duration); every lock acquisition, goroutine start, wake-up and select choice in task.go is a scheduler decision. non-trivial = at least one body execution was cancelled by, or had to wait for, prioritized work; distinct = schedule hash (task label + park site per step) x configuration",
+		Rule: "each run draws concurrency 1-3, silence period {0,10ms,1s,5s}, 0-3 prioritized clients x 1-3 begin/end pairs, 1-3 concurrent InvokeBackgroundTask whose bodies take drawn simulated time and react to cancellation after a drawn delay (incl. later than silence+prioritized duration); every lock acquisition, goroutine start, wake-up and select choice in task.go is a scheduler decision. non-trivial = at least one body execution was cancelled by, or had to wait for, prioritized work; distinct = schedule hash (task label + park site per step) x configuration One run in sixty is the 'daemon' campaign through the real filesystem (fs/fs.go): Mount / Check / on-demand reads are the prioritized tasks and the layers' background fetches the background tasks of the filesystem's own task manager; the image also lists layers that cannot be resolved, mounts are refused or fail in the FUSE stage, outages make checks fail; 15 simulated minutes after the last Mount / Check / read (registry healthy throughout in the judged runs) every still-mounted layer must read completely with the registry unreachable, i.e. its background fetch has run to completion.",
 		Run:  run,
 		HangIsViolation: true,
-		Components: map[string]string{"task.BackgroundTaskManager": "real (instrumented copy)", "x/sync/semaphore": "real", "clock": "simulated (testing/synctest)", "callers and bodies": "harness tasks"},
+		Components: map[string]string{"fs.filesystem + layer resolver + remote blob + caches (daemon campaign, 1 run in 60)": "real (instrumented copy); kernel side of FUSE and registry are stubs", "task.BackgroundTaskManager": "real (instrumented copy)", "x/sync/semaphore": "real", "clock": "simulated (testing/synctest)", "callers and bodies": "harness tasks"},
 		Assumptions: []string{"time passes only when no task is runnable (no stall injection for this property, so that 'cancelled when a prioritized task begins' can be judged at the same simulated instant)"},
 	})
 }
